@@ -37,6 +37,7 @@ class Ctx:
         self.paths = []
         self.counter = 0
         self.strings = {}       # concrete str -> z3 Real const
+        self.global_axioms = []  # filled by builtins_ (pi, sqrt2)
         self.branch_timeout_ms = 400
         self.max_paths = 4000
         self.stats = {'feas_checks': 0, 'paths': 0}
@@ -69,6 +70,7 @@ CTX = Ctx()
 def _feasible(conds, extra) -> bool:
     s = z3.Solver()
     s.set('timeout', CTX.branch_timeout_ms)
+    s.add(*CTX.global_axioms)
     s.add(*CTX.string_axioms())
     s.add(*conds)
     s.add(extra)
@@ -84,6 +86,8 @@ class Path:
         self.pos = 0
         self.base = list(base)
         self.conds = []                   # decisions taken and facts assumed, in order
+        self.local = []                   # decisions only
+        self.facts = []                   # (number of decisions when assumed, fact)
         self.pending = []
         self.obligations = []             # side obligations (label, z3 Bool that must hold)
 
@@ -96,6 +100,7 @@ class Path:
                 raise Infeasible()
             return
         self.conds.append(fact)
+        self.facts.append((len(self.local), fact))
 
     def branch(self, cond) -> bool:
         if isinstance(cond, bool):
@@ -122,6 +127,7 @@ class Path:
             self.decisions.append((d, forced))
         self.pos += 1
         self.conds.append(c if d else z3.Not(c))
+        self.local.append(c if d else z3.Not(c))
         return d
 
 
@@ -136,9 +142,15 @@ class Outcome:
 
 
 def explore(thunk, base=(), want_local_conds=False):
-    """Run `thunk` on every feasible path.  Returns a list of Outcome; kind in {'ret','exc'}."""
+    """Run `thunk` on every feasible path.  Returns a list of Outcome; kind in {'ret','exc'}.
+
+    With want_local_conds (nested exploration inside an enclosing path) an outcome carries only the *decisions*
+    taken inside; facts assumed inside (axiom instances, definitions of fresh symbols) are exported to the
+    enclosing path, each guarded by the decisions under which it was assumed.
+    """
     work = [[]]
     outs = []
+    exported = []
     while work:
         prefix = work.pop()
         p = Path(prefix, base)
@@ -155,9 +167,20 @@ def explore(thunk, base=(), want_local_conds=False):
             CTX.paths.pop()
             work.extend(p.pending)
         CTX.stats['paths'] += 1
-        outs.append(Outcome(list(p.conds) if want_local_conds else p.all_conds(), kind, v, p.obligations))
+        if want_local_conds:
+            outs.append(Outcome(list(p.local), kind, v, p.obligations))
+            for n, fact in p.facts:
+                exported.append(z3.Implies(z3.And(*p.local[:n]), fact) if n else fact)
+        else:
+            outs.append(Outcome(p.all_conds(), kind, v, p.obligations))
         if len(outs) > CTX.max_paths:
             raise PathExplosion()
+    if want_local_conds and CTX.paths:
+        seen = set()
+        for f in exported:
+            if f.get_id() not in seen:
+                seen.add(f.get_id())
+                CTX.path.assume(f)
     return outs
 
 
